@@ -258,6 +258,13 @@ func checkAlter(c altCase, r *h.Rec) error {
 	r.Label("zone:" + zname)
 	a := append([]byte{}, b.blob...)
 	a[c.Pos] = nb
+	if b.auth != authNone && hasPrefix(c.Cont, "p8-") && kdfCostTooHigh(a) {
+		// the alteration turned a KDF cost parameter into a huge number
+		// (e.g. an INTEGER length octet that now spans its neighbours):
+		// password KDFs are expensive by design, this is not a hang
+		r.Label("excluded:kdf-cost")
+		return nil
+	}
 	got, err := b.dec(a, append([]byte{}, b.secret...))
 	desc := func() string {
 		return fmt.Sprintf("%s (key class %s): byte %d (%s) altered %02x -> %02x; container %s", c.label(), c.Key, c.Pos, zname, b.blob[c.Pos], nb, h.Hex(b.blob))
@@ -283,6 +290,34 @@ func checkAlter(c altCase, r *h.Rec) error {
 	}
 	r.Label("alter:accepted-other-valid-key(no-redundancy)")
 	return nil
+}
+
+// kdfCostTooHigh reports whether the AlgorithmIdentifier of an (altered)
+// EncryptedPrivateKeyInfo carries a positive INTEGER above 4096 (iteration
+// count, scrypt N/r/p).
+func kdfCostTooHigh(blob []byte) bool {
+	root, err := parseDER(blob)
+	if err != nil || len(root.kids) == 0 {
+		return false // the library's strict DER parser refuses it before any KDF runs
+	}
+	high := false
+	var walk func(n *tlv)
+	walk = func(n *tlv) {
+		if n.tag == 0x02 && n.kids == nil {
+			c := n.content()
+			if len(c) > 0 && c[0]&0x80 == 0 {
+				v := new(big.Int).SetBytes(c)
+				if v.BitLen() > 12 {
+					high = true
+				}
+			}
+		}
+		for _, k := range n.kids {
+			walk(k)
+		}
+	}
+	walk(root.kid(0))
+	return high
 }
 
 // emitAlterations enumerates every byte position of the container with the
